@@ -133,7 +133,9 @@ func TestVerifC08Conc(t *testing.T) {
 	if thorough {
 		k = 12
 	}
-	os.WriteFile(filepath.Join(root, "BUILD.dawn"), []byte(c08ConcText(k, rng)), 0644)
+	text := c08ConcText(k, rng)
+	os.WriteFile(filepath.Join(root, "BUILD.dawn"), []byte(text), 0644)
+	line("text", "concurrent", base64.StdEncoding.EncodeToString([]byte(text)))
 
 	proj, refs, err := c08ConcLoad(root)
 	if err != nil || len(refs) != k {
